@@ -2,7 +2,8 @@
    rules, the origin-side translation) and about the serde behaviour of IR/Serde.v
    on the shapes [ir_of_rust] produces (property C04). *)
 From Coq Require Import String ZArith NArith List Bool Lia.
-From Typify Require Import Base.Json IR.TypeIR IR.Serde Algo.RustDefs Proofs.SerdeProofs.
+From Typify Require Import Base.Json IR.TypeIR IR.Serde Algo.RustDefs Proofs.SerdeProofs Check.WireEquiv
+  Proofs.SettingsProofs.
 Import ListNotations.
 Close Scope string_scope.
 Open Scope list_scope.
@@ -301,7 +302,7 @@ Section OptionMembers.
   Proof.
     intros Hs Hd Hf Ha. simpl. rewrite Ha.
     destruct (ser_fields T ser r fs) as [rest|]; [|reflexivity].
-    assert (Hk : skip_if T p ROptNone = true) by (unfold skip_if; rewrite Hs, Hd; reflexivity).
+    assert (Hk : skip_if T p ROptNone = true) by (unfold skip_if, unbox_det; rewrite Hs, Hd; reflexivity).
     destruct (p_rename p); try (rewrite Hk; reflexivity). contradiction Hf; reflexivity.
   Qed.
 
@@ -452,4 +453,28 @@ Proof.
   - intros Hk Hr.
     exact (skip_none_de T de (default_val T (S fuel)) p r kvs w t xs Hs Hd (default_val_option T fuel _ t Hd) Hw Hk Hr).
 
+Qed.
+
+(* ------------------------------------------------------------------ with C14's proven checker *)
+Lemma same_wire_of_wire_equiv re_match native_ok T t T' t' :
+  wire_equiv T t T' t' = true -> same_wire re_match native_ok T t T' t'.
+Proof.
+  intros H fuel j. unfold rt.
+  destruct (wire_equiv_sound_fuel re_match native_ok T T' t t' H fuel) as [Hd [_ Hs]].
+  rewrite Hd. destruct (de re_match native_ok T' fuel t' j) as [x|]; [apply Hs|reflexivity].
+Qed.
+
+Lemma c04_wire_compat_from_equiv_lemma :
+  forall (re_match native_ok : ustring -> ustring -> bool)
+         (U : universe) (t : id) (T' : space) (t' : id),
+    wire_equiv (ir_of_rust U) t T' t' = true ->
+    forall fuel x j,
+      ser (ir_of_rust U) fuel t x = Some j ->
+      de re_match native_ok (ir_of_rust U) fuel t j = Some x ->
+      exists x', de re_match native_ok T' fuel t' j = Some x' /\
+                 exists j', ser T' fuel t' x' = Some j' /\
+                            de re_match native_ok (ir_of_rust U) fuel t j' = Some x.
+Proof.
+  intros re_match native_ok U t T' t' H.
+  exact (wire_compat_of_same_wire re_match native_ok _ _ _ _ (same_wire_of_wire_equiv re_match native_ok _ _ _ _ H)).
 Qed.
